@@ -1,7 +1,7 @@
 (* C15 non-vacuity: concrete inputs meeting the hypotheses of the theorems in
    Props.v, and concrete instances of the abstract codings / primitives that
    satisfy the section hypotheses (so the hypotheses are consistent). *)
-From CJ Require Import Common.Base Common.BaseProofs C15.Model C15.Proofs C15.ModelName C15.ProofsName C15.ModelObf C15.ProofsObf.
+From CJ Require Import Common.Base Common.BaseProofs C15.Model C15.Proofs C15.ModelName C15.ProofsName C15.ModelObf C15.ProofsObf C15.ModelAny C15.ProofsAny C15.Run.
 From Coq Require Import Lia ZifyN ZifyNat ZifyBool.
 Ltac Zify.zify_post_hook ::= Z.div_mod_to_equations.
 
@@ -120,3 +120,13 @@ Proof. eexists. repeat split; vm_compute; reflexivity. Qed.
 Example ex_header_fresh :
   obf_header t_sbm t_rand <> obf_header t_sbm {| or_cands := [[9; 9; 9]]; or_byte := 100 |}.
 Proof. vm_compute. discriminate. Qed.
+
+(* ---- URL-less Any: the stand-in codec of Run.v satisfies the codec hypothesis ---- *)
+Lemma st_codec_roundtrip : forall m : st_msg, st_unmarshal (fst m) (st_marshal m) = Some m.
+Proof. intros [k f]. unfold st_unmarshal, st_marshal. cbn. rewrite N.eqb_refl. reflexivity. Qed.
+Example ex_anypb_nourl :
+  unmarshal_anypb_to N st_msg any_url_of st_unmarshal (Some (pack_nourl st_msg st_marshal (1, [2; 0; 5]))) 1 = Ok (Some (1, [2; 0; 5])).
+Proof. vm_compute. reflexivity. Qed.
+Example ex_anypb_wrong :
+  unmarshal_anypb_to N st_msg any_url_of st_unmarshal (Some (pack N st_msg fst any_url_of st_marshal (0, [2]))) 1 = Err EWrongType.
+Proof. vm_compute. reflexivity. Qed.
